@@ -1,11 +1,11 @@
 SPECIFICATION Spec
 CONSTANTS
-  MaxLen = 2
-  Alphabet = "small"
+  MaxLen = 3
+  Alphabet = "noread1"
   Dev_DupUserStucksObject = FALSE
   Dev_AuthFloodCrashes = FALSE
   Dev_HostileCountCrashes = FALSE
   Dev_SaturationDeadlocks = FALSE
-  Dev_SendBlocksOnUnreadSocket = FALSE
-INVARIANTS Export ServerUp AllServe
+  Dev_SendBlocksOnUnreadSocket = TRUE
+INVARIANTS ServerUp AllServe
 CHECK_DEADLOCK FALSE
